@@ -50,15 +50,32 @@ type Env struct {
 	Keys    map[string]*storetypes.KVStoreKey
 }
 
-type fakeEngine struct{}
+// the engine client handed to the goat keeper; the finalize family scripts its next answers (status, or a
+// client-side error of a given class), every other family leaves the zero value = always VALID
+type fakeEngine struct {
+	npStatus, fcStatus string
+	npErr, fcErr       error
+}
 
-func (fakeEngine) ForkchoiceUpdatedV3(ctx context.Context, update *engine.ForkchoiceStateV1, p *engine.PayloadAttributes) (engine.ForkChoiceResponse, error) {
+func (f fakeEngine) ForkchoiceUpdatedV3(ctx context.Context, update *engine.ForkchoiceStateV1, p *engine.PayloadAttributes) (engine.ForkChoiceResponse, error) {
+	if f.fcErr != nil {
+		return engine.ForkChoiceResponse{}, f.fcErr
+	}
+	if f.fcStatus != "" {
+		return engine.ForkChoiceResponse{PayloadStatus: engine.PayloadStatusV1{Status: f.fcStatus}}, nil
+	}
 	return engine.ForkChoiceResponse{PayloadStatus: engine.PayloadStatusV1{Status: engine.VALID}}, nil
 }
 func (fakeEngine) GetPayloadV4(ctx context.Context, id engine.PayloadID) (*engine.ExecutionPayloadEnvelope, error) {
 	return nil, nil
 }
-func (fakeEngine) NewPayloadV4(ctx context.Context, p *engine.ExecutableData, vh []common.Hash, br common.Hash, reqs [][]byte) (*engine.PayloadStatusV1, error) {
+func (f fakeEngine) NewPayloadV4(ctx context.Context, p *engine.ExecutableData, vh []common.Hash, br common.Hash, reqs [][]byte) (*engine.PayloadStatusV1, error) {
+	if f.npErr != nil {
+		return nil, f.npErr
+	}
+	if f.npStatus != "" {
+		return &engine.PayloadStatusV1{Status: f.npStatus}, nil
+	}
 	return &engine.PayloadStatusV1{Status: engine.VALID}, nil
 }
 func (fakeEngine) ExchangeCapabilities(ctx context.Context, caps []string) ([]string, error) {
